@@ -2144,19 +2144,21 @@ def Schema.wfDefaults (S : Schema) : Bool :=
 def usageErrs (S : Schema) (vars : List VarDef) (u : Usage) : List Err :=
   match vars.find? (fun vd => vd.name = u.name) with
   | none => [newError u.pos "undefined variable"]
-  | some vd => validateVariableUsage S vd u.pos { exp := u.expected, locDefault := u.locDefault }
+  | some vd =>
+    validateVariableUsage S vd u.pos { exp := u.expected, locDefault := u.locDefault, inScalar := u.inScalar }
 
 /-- The model's context and the specification's (expected type, location default) agree up to the
     location default of positions that are not non-null (where it is never looked at). -/
-def CtxRel (c : VCtx) (t : Option TRef) (ld : Bool) : Prop :=
-  c.exp = t ∧ ∀ inner, t = some (.nonNull inner) → c.locDefault = ld
+def CtxRel (c : VCtx) (t : Option TRef) (ld : Bool) (sc : Bool := false) : Prop :=
+  (c.exp = t ∧ c.inScalar = sc) ∧ ∀ inner, t = some (.nonNull inner) → c.locDefault = ld
 
-theorem validateVariableUsage_ctx (S : Schema) (vd : VarDef) (p : Pos) {c : VCtx} {t : Option TRef} {ld : Bool}
-    (h : CtxRel c t ld) :
-    validateVariableUsage S vd p c = validateVariableUsage S vd p { exp := t, locDefault := ld } := by
-  obtain ⟨he, hl⟩ := h
+theorem validateVariableUsage_ctx (S : Schema) (vd : VarDef) (p : Pos) {c : VCtx} {t : Option TRef} {ld sc : Bool}
+    (h : CtxRel c t ld sc) :
+    validateVariableUsage S vd p c =
+      validateVariableUsage S vd p { exp := t, locDefault := ld, inScalar := sc } := by
+  obtain ⟨⟨he, hs⟩, hl⟩ := h
   unfold validateVariableUsage
-  simp only [he]
+  simp only [he, hs]
   cases Model.schemaType S vd.type with
   | none => rfl
   | some vt =>
@@ -2170,6 +2172,8 @@ theorem validateVariableUsage_ctx (S : Schema) (vd : VarDef) (p : Pos) {c : VCtx
 
 theorem itemExpected_eq (t : Option TRef) : Model.itemExpected t = Spec.itemType t := rfl
 theorem objectFields_eq (S : Schema) (t : Option TRef) : Model.objectFields S t = Spec.objectTarget S t := rfl
+theorem itemInScalar_eq (S : Schema) (c : VCtx) : Model.itemInScalar S c = Spec.itemInScalar S c.exp c.inScalar := rfl
+theorem fieldInScalar_eq (S : Schema) (c : VCtx) : Model.fieldInScalar S c = Spec.fieldInScalar S c.exp c.inScalar := rfl
 
 theorem inputCtx_rel (defs : Option (List InputDef)) (n : String)
     (hd : ∀ ds, defs = some ds → ∀ d ∈ ds, defaultOkDef d = true) :
@@ -2184,7 +2188,7 @@ theorem inputCtx_rel (defs : Option (List InputDef)) (n : String)
   cases hb : defs.bind (findInput · n) with
   | none => simp [noCtx]
   | some d =>
-    simp only [true_and]
+    simp only [true_and, and_self]
     intro inner hi
     simp only [Option.some.injEq] at hi
     cases defs with
@@ -2200,22 +2204,26 @@ theorem inputCtx_rel (defs : Option (List InputDef)) (n : String)
 
 mutual
 theorem varsValue_errs (S : Schema) (hw : Schema.wfDefaults S = true) (vars : List VarDef) :
-    ∀ (v : Value) (c : VCtx) (t : Option TRef) (ld : Bool), CtxRel c t ld →
-    (varsValue S vars c v).errs = (Spec.usagesValue S t ld v).flatMap (usageErrs S vars)
-  | .var n p, c, t, ld, h => by
+    ∀ (v : Value) (c : VCtx) (t : Option TRef) (ld sc : Bool), CtxRel c t ld sc →
+    (varsValue S vars c v).errs = (Spec.usagesValue S t ld sc v).flatMap (usageErrs S vars)
+  | .var n p, c, t, ld, sc, h => by
     unfold varsValue Spec.usagesValue usageErrs
     simp only [List.flatMap_cons, List.flatMap_nil, List.append_nil]
     cases vars.find? (fun vd => vd.name = n) with
     | none => rfl
     | some vd => exact validateVariableUsage_ctx S vd p h
-  | .list items p, c, t, ld, h => by
+  | .list items p, c, t, ld, sc, h => by
     unfold varsValue Spec.usagesValue
-    rw [h.1, itemExpected_eq]
-    exact varsItems_errs S hw vars items (Spec.itemType t)
-  | .obj fields p, c, t, ld, h => by
+    rw [itemInScalar_eq, h.1.1, h.1.2, itemExpected_eq]
+    exact varsItems_errs S hw vars items (Spec.itemType t) _
+  | .obj fields p, c, t, ld, sc, h => by
     unfold varsValue Spec.usagesValue
-    rw [h.1, objectFields_eq]
-    exact varsFields_errs S hw vars fields (Spec.objectTarget S t) (by
+    rw [fieldInScalar_eq, h.1.1, h.1.2, objectFields_eq]
+    exact varsFields_errs S hw vars fields (Spec.objectTarget S t) _ (by
+      intro hsc
+      unfold Spec.fieldInScalar at hsc
+      simp only [Bool.and_eq_true, Option.isNone_iff_eq_none] at hsc
+      exact hsc.1) (by
       intro ds hds d hd
       -- the definitions come from an input object type of the schema
       unfold Spec.objectTarget at hds
@@ -2247,77 +2255,82 @@ theorem varsValue_errs (S : Schema) (hw : Schema.wfDefaults S = true) (vars : Li
           | interface => simp [hk] at hds
           | union => simp [hk] at hds
           | enum => simp [hk] at hds)
-  | .int _ _, c, t, ld, h => by simp [varsValue, Spec.usagesValue]
-  | .float _ _, c, t, ld, h => by simp [varsValue, Spec.usagesValue]
-  | .str _ _, c, t, ld, h => by simp [varsValue, Spec.usagesValue]
-  | .bool _ _, c, t, ld, h => by simp [varsValue, Spec.usagesValue]
-  | .null _, c, t, ld, h => by simp [varsValue, Spec.usagesValue]
-  | .enum _ _, c, t, ld, h => by simp [varsValue, Spec.usagesValue]
+  | .int _ _, c, t, ld, sc, h => by simp [varsValue, Spec.usagesValue]
+  | .float _ _, c, t, ld, sc, h => by simp [varsValue, Spec.usagesValue]
+  | .str _ _, c, t, ld, sc, h => by simp [varsValue, Spec.usagesValue]
+  | .bool _ _, c, t, ld, sc, h => by simp [varsValue, Spec.usagesValue]
+  | .null _, c, t, ld, sc, h => by simp [varsValue, Spec.usagesValue]
+  | .enum _ _, c, t, ld, sc, h => by simp [varsValue, Spec.usagesValue]
 theorem varsItems_errs (S : Schema) (hw : Schema.wfDefaults S = true) (vars : List VarDef) :
-    ∀ (items : List Value) (t : Option TRef),
-    (varsItems S vars t items).errs = (Spec.usagesItems S t items).flatMap (usageErrs S vars)
-  | [], t => by simp [varsItems, Spec.usagesItems]
-  | v :: rest, t => by
+    ∀ (items : List Value) (t : Option TRef) (sc : Bool),
+    (varsItems S vars t sc items).errs = (Spec.usagesItems S t sc items).flatMap (usageErrs S vars)
+  | [], t, sc => by simp [varsItems, Spec.usagesItems]
+  | v :: rest, t, sc => by
     simp only [varsItems, Spec.usagesItems, VarAcc.errs_append, List.flatMap_append]
-    rw [varsValue_errs S hw vars v { exp := t, locDefault := false } t false ⟨rfl, fun _ _ => rfl⟩,
-      varsItems_errs S hw vars rest t]
+    rw [varsValue_errs S hw vars v { exp := t, locDefault := false, inScalar := sc } t false sc
+        ⟨⟨rfl, rfl⟩, fun _ _ => rfl⟩,
+      varsItems_errs S hw vars rest t sc]
 theorem varsFields_errs (S : Schema) (hw : Schema.wfDefaults S = true) (vars : List VarDef) :
-    ∀ (fields : List ObjField) (defs : Option (List InputDef)),
+    ∀ (fields : List ObjField) (defs : Option (List InputDef)) (sc : Bool), (sc = true → defs = none) →
     (∀ ds, defs = some ds → ∀ d ∈ ds, defaultOkDef d = true) →
-    (varsFields S vars defs fields).errs = (Spec.usagesFields S defs fields).flatMap (usageErrs S vars)
-  | [], defs, _ => by simp [varsFields, Spec.usagesFields]
-  | .mk n p v :: rest, defs, hd => by
+    (varsFields S vars defs sc fields).errs = (Spec.usagesFields S defs sc fields).flatMap (usageErrs S vars)
+  | [], defs, sc, _, _ => by simp [varsFields, Spec.usagesFields]
+  | .mk n p v :: rest, defs, sc, hsc, hd => by
     simp only [varsFields, Spec.usagesFields, VarAcc.errs_append, List.flatMap_append]
-    rw [varsFields_errs S hw vars rest defs hd]
+    rw [varsFields_errs S hw vars rest defs sc hsc hd]
     congr 1
     have hrel := inputCtx_rel defs n hd
     cases hb : defs.bind (findInput · n) with
     | none =>
       simp only [hb] at hrel
-      exact varsValue_errs S hw vars v _ none false hrel
+      exact varsValue_errs S hw vars v _ none false sc ⟨⟨hrel.1.1, rfl⟩, hrel.2⟩
     | some d =>
       simp only [hb] at hrel
-      exact varsValue_errs S hw vars v _ (some d.type) (d.dflt != .none) hrel
+      have hsf : sc = false := by
+        cases sc with
+        | false => rfl
+        | true => rw [hsc rfl] at hb; simp at hb
+      exact varsValue_errs S hw vars v _ (some d.type) (d.dflt != .none) false ⟨⟨hrel.1.1, hsf⟩, hrel.2⟩
 end
 
 
 mutual
 theorem varsValue_enc (S : Schema) (vars : List VarDef) :
-    ∀ (v : Value) (c : VCtx) (t : Option TRef) (ld : Bool),
-    (varsValue S vars c v).encountered = (Spec.usagesValue S t ld v).map (·.name)
-  | .var n p, c, t, ld => by
+    ∀ (v : Value) (c : VCtx) (t : Option TRef) (ld sc : Bool),
+    (varsValue S vars c v).encountered = (Spec.usagesValue S t ld sc v).map (·.name)
+  | .var n p, c, t, ld, sc => by
     unfold varsValue Spec.usagesValue
     cases vars.find? (fun vd => vd.name = n) <;> rfl
-  | .list items p, c, t, ld => by
+  | .list items p, c, t, ld, sc => by
     unfold varsValue Spec.usagesValue
-    exact varsItems_enc S vars items _ _
-  | .obj fields p, c, t, ld => by
+    exact varsItems_enc S vars items _ _ _ _
+  | .obj fields p, c, t, ld, sc => by
     unfold varsValue Spec.usagesValue
-    exact varsFields_enc S vars fields _ _
-  | .int _ _, c, t, ld => by simp [varsValue, Spec.usagesValue]
-  | .float _ _, c, t, ld => by simp [varsValue, Spec.usagesValue]
-  | .str _ _, c, t, ld => by simp [varsValue, Spec.usagesValue]
-  | .bool _ _, c, t, ld => by simp [varsValue, Spec.usagesValue]
-  | .null _, c, t, ld => by simp [varsValue, Spec.usagesValue]
-  | .enum _ _, c, t, ld => by simp [varsValue, Spec.usagesValue]
+    exact varsFields_enc S vars fields _ _ _ _
+  | .int _ _, c, t, ld, sc => by simp [varsValue, Spec.usagesValue]
+  | .float _ _, c, t, ld, sc => by simp [varsValue, Spec.usagesValue]
+  | .str _ _, c, t, ld, sc => by simp [varsValue, Spec.usagesValue]
+  | .bool _ _, c, t, ld, sc => by simp [varsValue, Spec.usagesValue]
+  | .null _, c, t, ld, sc => by simp [varsValue, Spec.usagesValue]
+  | .enum _ _, c, t, ld, sc => by simp [varsValue, Spec.usagesValue]
 theorem varsItems_enc (S : Schema) (vars : List VarDef) :
-    ∀ (items : List Value) (t t' : Option TRef),
-    (varsItems S vars t items).encountered = (Spec.usagesItems S t' items).map (·.name)
-  | [], t, t' => by simp [varsItems, Spec.usagesItems]
-  | v :: rest, t, t' => by
+    ∀ (items : List Value) (t t' : Option TRef) (sc sc' : Bool),
+    (varsItems S vars t sc items).encountered = (Spec.usagesItems S t' sc' items).map (·.name)
+  | [], t, t', sc, sc' => by simp [varsItems, Spec.usagesItems]
+  | v :: rest, t, t', sc, sc' => by
     simp only [varsItems, Spec.usagesItems, VarAcc.encountered_append, List.map_append]
-    rw [varsValue_enc S vars v _ t' false, varsItems_enc S vars rest t t']
+    rw [varsValue_enc S vars v _ t' false sc', varsItems_enc S vars rest t t' sc sc']
 theorem varsFields_enc (S : Schema) (vars : List VarDef) :
-    ∀ (fields : List ObjField) (defs defs' : Option (List InputDef)),
-    (varsFields S vars defs fields).encountered = (Spec.usagesFields S defs' fields).map (·.name)
-  | [], defs, defs' => by simp [varsFields, Spec.usagesFields]
-  | .mk n p v :: rest, defs, defs' => by
+    ∀ (fields : List ObjField) (defs defs' : Option (List InputDef)) (sc sc' : Bool),
+    (varsFields S vars defs sc fields).encountered = (Spec.usagesFields S defs' sc' fields).map (·.name)
+  | [], defs, defs', sc, sc' => by simp [varsFields, Spec.usagesFields]
+  | .mk n p v :: rest, defs, defs', sc, sc' => by
     simp only [varsFields, Spec.usagesFields, VarAcc.encountered_append, List.map_append]
-    rw [varsFields_enc S vars rest defs defs']
+    rw [varsFields_enc S vars rest defs defs' sc sc']
     congr 1
     cases defs'.bind (findInput · n) with
-    | none => exact varsValue_enc S vars v _ none false
-    | some d => exact varsValue_enc S vars v _ (some d.type) (d.dflt != .none)
+    | none => exact varsValue_enc S vars v _ none false sc'
+    | some d => exact varsValue_enc S vars v _ (some d.type) (d.dflt != .none) false
 end
 
 mutual
@@ -2326,8 +2339,8 @@ theorem varsValue_spreads (S : Schema) (vars : List VarDef) :
   | .var n p, c => by
     unfold varsValue
     cases vars.find? (fun vd => vd.name = n) <;> rfl
-  | .list items p, c => by unfold varsValue; exact varsItems_spreads S vars items _
-  | .obj fields p, c => by unfold varsValue; exact varsFields_spreads S vars fields _
+  | .list items p, c => by unfold varsValue; exact varsItems_spreads S vars items _ _
+  | .obj fields p, c => by unfold varsValue; exact varsFields_spreads S vars fields _ _
   | .int _ _, c => by simp [varsValue]
   | .float _ _, c => by simp [varsValue]
   | .str _ _, c => by simp [varsValue]
@@ -2335,17 +2348,18 @@ theorem varsValue_spreads (S : Schema) (vars : List VarDef) :
   | .null _, c => by simp [varsValue]
   | .enum _ _, c => by simp [varsValue]
 theorem varsItems_spreads (S : Schema) (vars : List VarDef) :
-    ∀ (items : List Value) (t : Option TRef), (varsItems S vars t items).spreads = []
-  | [], t => by simp [varsItems]
-  | v :: rest, t => by
-    simp only [varsItems, VarAcc.spreads_append, varsValue_spreads S vars v _, varsItems_spreads S vars rest t,
+    ∀ (items : List Value) (t : Option TRef) (sc : Bool), (varsItems S vars t sc items).spreads = []
+  | [], t, sc => by simp [varsItems]
+  | v :: rest, t, sc => by
+    simp only [varsItems, VarAcc.spreads_append, varsValue_spreads S vars v _, varsItems_spreads S vars rest t sc,
       List.append_nil]
 theorem varsFields_spreads (S : Schema) (vars : List VarDef) :
-    ∀ (fields : List ObjField) (defs : Option (List InputDef)), (varsFields S vars defs fields).spreads = []
-  | [], defs => by simp [varsFields]
-  | .mk n p v :: rest, defs => by
-    simp only [varsFields, VarAcc.spreads_append, varsValue_spreads S vars v _, varsFields_spreads S vars rest defs,
-      List.append_nil]
+    ∀ (fields : List ObjField) (defs : Option (List InputDef)) (sc : Bool),
+      (varsFields S vars defs sc fields).spreads = []
+  | [], defs, sc => by simp [varsFields]
+  | .mk n p v :: rest, defs, sc => by
+    simp only [varsFields, VarAcc.spreads_append, varsValue_spreads S vars v _,
+      varsFields_spreads S vars rest defs sc, List.append_nil]
 end
 
 /-! ### argument lists, directive lists -/
@@ -2396,12 +2410,12 @@ theorem varsArgs_input (S : Schema) (hw : Schema.wfDefaults S = true) (vars : Li
     cases hb : defs.bind (findInput · a.name) with
     | none =>
       simp only [hb] at hrel
-      exact ⟨by rw [varsValue_errs S hw vars a.value _ none false hrel],
-        by rw [varsValue_enc S vars a.value _ none false], trivial⟩
+      exact ⟨by rw [varsValue_errs S hw vars a.value _ none false false hrel],
+        by rw [varsValue_enc S vars a.value _ none false false], trivial⟩
     | some d =>
       simp only [hb] at hrel
-      exact ⟨by rw [varsValue_errs S hw vars a.value _ (some d.type) (d.dflt != .none) hrel],
-        by rw [varsValue_enc S vars a.value _ (some d.type) (d.dflt != .none)], trivial⟩
+      exact ⟨by rw [varsValue_errs S hw vars a.value _ (some d.type) (d.dflt != .none) false hrel],
+        by rw [varsValue_enc S vars a.value _ (some d.type) (d.dflt != .none) false], trivial⟩
 
 /-- Arguments of a field. -/
 theorem varsArgs_field (S : Schema) (hw : Schema.wfDefaults S = true) (vars : List VarDef)
@@ -2420,12 +2434,12 @@ theorem varsArgs_field (S : Schema) (hw : Schema.wfDefaults S = true) (vars : Li
     cases hb : defs.bind (findInput · a.name) with
     | none =>
       simp only [hb] at hrel
-      exact ⟨by rw [varsValue_errs S hw vars a.value _ none false hrel],
-        by rw [varsValue_enc S vars a.value _ none false], trivial⟩
+      exact ⟨by rw [varsValue_errs S hw vars a.value _ none false false hrel],
+        by rw [varsValue_enc S vars a.value _ none false false], trivial⟩
     | some d =>
       simp only [hb] at hrel
-      exact ⟨by rw [varsValue_errs S hw vars a.value _ (some d.type) (d.dflt != .none) hrel],
-        by rw [varsValue_enc S vars a.value _ (some d.type) (d.dflt != .none)], trivial⟩
+      exact ⟨by rw [varsValue_errs S hw vars a.value _ (some d.type) (d.dflt != .none) false hrel],
+        by rw [varsValue_enc S vars a.value _ (some d.type) (d.dflt != .none) false], trivial⟩
 
 theorem varsDirectives_spec (S : Schema) (hw : Schema.wfDefaults S = true) (vars : List VarDef)
     (dirs : List Directive) :
